@@ -462,6 +462,13 @@ package dnssec
 //@   assert at return#1: !result0 && result1 != nil
 //@   assert at return#2: !result0
 //@   assert at return#5: result1 == nil
+//@   # EVERY wildcard-expanded signature gets its own next-closer denial: each next-closer name that is computed is handed
+//@   # to the denial check before the next answer record is looked at (no record's verdict is reused for another owner),
+//@   # and the name checked is the one derived from THIS signature's owner (Labels+1 labels)
+//@   loop 2 invariant calls("(middleware/resolver/dnssec.aggressiveCanonicalName).suffix") == calls("middleware/resolver/dnssec.nextCloserDeniedWithWork")
+//@   assert at call (middleware/resolver/dnssec.aggressiveCanonicalName).suffix#1: arg0 == lastret("middleware/resolver/dnssec.newAggressiveCanonicalName") && lastret("middleware/resolver/dnssec.newAggressiveCanonicalName", 1) == nil && arg1 == int(sig.Labels) + 1
+//@   assert at call internal/dnsname.AppendPresentation#1: arg1 == lastret("(middleware/resolver/dnssec.aggressiveCanonicalName).suffix").wire
+//@   assert at call middleware/resolver/dnssec.nextCloserDeniedWithWork#1: calls("(middleware/resolver/dnssec.aggressiveCanonicalName).suffix") == calls("middleware/resolver/dnssec.nextCloserDeniedWithWork") + 1 && lastret("internal/dnsname.AppendPresentation", 1)
 //@
 //@ func nextCloserDeniedWithWork
 //@   abstract
@@ -472,3 +479,68 @@ package dnssec
 //@   assert at return#2: !result0 && !result1
 //@   assert at return#3: !result0 && !result1 && result2 != nil
 //@   assert at return#4: !result0 && !result1 && result2 != nil
+//@
+//@ # ---- C02: an NSEC3 record covers a hash only when the hash lies STRICTLY between its owner hash and its next hash
+//@ # in the circular order of the chain (RFC 5155 section 7.2.1 / 8.3): for an ordinary record owner < hash < next; for the
+//@ # last record of the chain (owner > next) hash > owner or hash < next; for a single-record chain every hash but the
+//@ # owner's. A hash EQUAL to the owner hash or to the next hash names an existing owner and is never covered.
+//@ pred nsec3Strictly(ownerNext int, hashOwner int, hashNext int) := ite(ownerNext == 0, hashOwner != 0, ite(ownerNext < 0, hashOwner > 0 && hashNext < 0, hashOwner > 0 || hashNext < 0))
+//@ func aggressiveNSEC3Covers
+//@   requires entry != nil
+//@   modifies nothing
+//@   ensures result == nsec3Strictly(bcmp(entry.ownerHash, entry.nextHash), bcmp(hash, entry.ownerHash), bcmp(hash, entry.nextHash))
+//@   ensures bcmp(hash, entry.nextHash) == 0 && bcmp(entry.ownerHash, entry.nextHash) != 0 ==> !result
+//@   ensures bcmp(hash, entry.ownerHash) == 0 ==> !result
+//@
+//@ # ---- C01: the DS -> DNSKEY step. A chain is declared INSECURE (true, ErrFailedToConvertKSK) only when the parent
+//@ # published DS records and NOT ONE of them uses a digest/algorithm this validator supports (RFC 6840 5.2); as soon
+//@ # as one supported DS exists, a failure to match it is BOGUS (false, error), never a downgrade. Success (false, nil)
+//@ # needs a digest match computed from that DS's own digest type and decoded digest.
+//@ func verifyDSWithWork
+//@   abstract
+//@   nosafety all pre
+//@   assert at return#5: result0 && supported == 0 && total > 0
+//@   assert at return#3: !result0 && result1 == nil && lastret("middleware/resolver/dnssec.runDSDigestMatch") && lastret("middleware/resolver/dnssec.runDSDigestMatch", 1) == nil
+//@   assert at return#1: !result0 && result1 != nil
+//@   assert at return#2: !result0 && result1 != nil
+//@   assert at return#4: !result0 && result1 != nil
+//@   assert at return#6: !result0 && result1 != nil
+//@   assert at call middleware/resolver/dnssec.runDSDigestMatch#1: arg0 == work && arg2 == parentDS.DigestType && arg3 == lastret("encoding/hex.DecodeString") && lastret("encoding/hex.DecodeString", 1) == nil && len(arg3) > 0
+//@
+//@ func runDSDigestMatch
+//@   abstract
+//@   nosafety all pre
+//@   assert at return#1: !result0 && result1 != nil
+//@   assert at return#2: result0 == lastret("middleware/resolver/dnssec.dsDigestMatches") && result1 == nil
+//@   assert at call middleware/resolver/dnssec.dsDigestMatches#1: arg0 == key && arg1 == digestType && arg2 == want
+//@
+//@ # ---- C12: inside one signature, EVERY public-key operation is preceded - since the previous one - by both budget
+//@ # checks with the counters as they stand now: the per-signature candidate count and the per-RRset signature-check
+//@ # count. So one RRset can never cost more than max_rrset_signature_checks verifications, however its signatures and
+//@ # colliding-tag keys are arranged; a refused check ends the signature with a work error
+//@ func verifyOneSigWithWork
+//@   abstract
+//@   nosafety all pre
+//@   loop 3 invariant work != nil ==> calls("(middleware/resolver/dnssec.SignatureWork).CheckDNSKEYCandidate") == calls("middleware/resolver/dnssec.runSignatureVerification") && calls("(middleware/resolver/dnssec.SignatureWork).CheckRRsetSignature") == calls("middleware/resolver/dnssec.runSignatureVerification")
+//@   assert at call middleware/resolver/dnssec.runSignatureVerification#1: arg0 == work && arg2 == sig && arg3 == set && (work != nil ==> calls("(middleware/resolver/dnssec.SignatureWork).CheckDNSKEYCandidate") == calls("middleware/resolver/dnssec.runSignatureVerification") + 1 && calls("(middleware/resolver/dnssec.SignatureWork).CheckRRsetSignature") == calls("middleware/resolver/dnssec.runSignatureVerification") + 1 && lastret("(middleware/resolver/dnssec.SignatureWork).CheckDNSKEYCandidate") == nil && lastret("(middleware/resolver/dnssec.SignatureWork).CheckRRsetSignature") == nil)
+//@   assert at call (middleware/resolver/dnssec.SignatureWork).CheckDNSKEYCandidate#1: arg1 == candidateUsed
+//@   assert at call (middleware/resolver/dnssec.SignatureWork).CheckRRsetSignature#1: arg1 == *rrsetUsed
+//@
+//@ # ---- C02 (RFC 8198 / 6672): a name is never denied from an NSEC set when some NSEC owner strictly ABOVE it is a
+//@ # delegation point (NS without SOA) or owns a DNAME - with or without SOA: an apex DNAME redirects everything below
+//@ # the apex too. Every entry of the set is examined, and the scan stops with ErrNSECBadDelegation at the first such owner.
+//@ func aggressiveDelegationBitmap
+//@   abstract
+//@   nosafety all pre
+//@   assert at return#1: result == (lastret("middleware/resolver/dnssec.typesSet#1") && !lastret("middleware/resolver/dnssec.typesSet#2"))
+//@   assert at call middleware/resolver/dnssec.typesSet#1: arg0 == bitmap && len(arg1) == 1 && arg1[0] == dns.TypeNS
+//@   assert at call middleware/resolver/dnssec.typesSet#2: arg0 == bitmap && len(arg1) == 1 && arg1[0] == dns.TypeSOA
+//@
+//@ func classifyAggressiveNSECName
+//@   abstract
+//@   nosafety all pre
+//@   loop 1 invariant calls("(middleware/resolver/dnssec.aggressiveCanonicalName).isStrictSubdomainOf") == i && 0 <= i
+//@   assert at call (middleware/resolver/dnssec.aggressiveCanonicalName).isStrictSubdomainOf#1: arg0 == name && arg1 == entries[i].owner
+//@   assert at call middleware/resolver/dnssec.aggressiveDelegationBitmap#1: lastret("(middleware/resolver/dnssec.aggressiveCanonicalName).isStrictSubdomainOf") && arg0 == entries[i].rr.TypeBitMap
+//@   assert at call middleware/resolver/dnssec.typesSet#1: !lastret("middleware/resolver/dnssec.aggressiveDelegationBitmap") && arg0 == entries[i].rr.TypeBitMap && len(arg1) == 1 && arg1[0] == dns.TypeDNAME
+//@   assert at return#1: result1 != nil && (lastret("middleware/resolver/dnssec.aggressiveDelegationBitmap") || lastret("middleware/resolver/dnssec.typesSet"))
